@@ -8,3 +8,4 @@ import GM.Model.Blocks.List
 import GM.Model.Blocks.Html
 import GM.Model.Blocks.Driver
 import GM.Model.Blocks.QuoteSim
+import GM.Model.Blocks.Indep
